@@ -45,6 +45,19 @@ Proof.
   split; [simpl in Es; lia|exact (Ei H0)].
 Qed.
 
+Theorem just_one_bar_section_sound : forall p, just_one_bar_section p = true ->
+  forall tr, paths p tr -> bar_sections tr = 1%nat /\ inside_bar tr = true.
+Proof.
+  intros p H tr Hp. unfold just_one_bar_section in H.
+  destruct (acheck st_eqb bar_step p [(0, 0)%nat]) as [outs|] eqn:E; [|discriminate].
+  destruct (acheck_sound (nat * nat) st_eqb st_eqb_eq bar_step p [(0, 0)%nat] outs E (0, 0)%nat tr
+              (or_introl eq_refl) Hp) as (st & R & I).
+  rewrite forallb_forall in H. specialize (H st I). apply andb_prop in H. destruct H as [H0 H1].
+  apply Nat.eqb_eq in H0. apply Nat.eqb_eq in H1.
+  destruct (arun_bar tr 0 0 st R) as [Es Ei]. unfold bar_sections, inside_bar.
+  split; [simpl in Es; lia|exact (Ei H0)].
+Qed.
+
 Theorem drop_owned_sound : forall p, drop_owned p = true ->
   forall tr, paths p tr -> owned_access tr = true.
 Proof.
@@ -69,7 +82,9 @@ Proof. vm_compute. reflexivity. Qed.
 Definition c01_atomic (name : string) (tr : list caction) : Prop :=
   if String.eqb name "ProgressBar::drop"
   then owned_access tr = true /\ (sections tr <= allowed_sections name)%nat
-  else (bar_sections tr <= 1)%nat /\ inside_bar tr = true.
+  else if c01_may_skip name
+  then (bar_sections tr <= 1)%nat /\ inside_bar tr = true
+  else bar_sections tr = 1%nat /\ inside_bar tr = true.
 
 Theorem c01_calls_atomic : forall o, c01_op o = true ->
   exists name p, c01_call o = Some name /\ pg_lookup name all_programs = Some p /\
@@ -86,19 +101,21 @@ Proof.
     assert (Hq : match p with PLoop b => b | _ => p end = p).
     { vm_compute in El. injection El as <-. reflexivity. }
     rewrite Hq. exact Hp.
-  - exact (one_bar_section_sound p H tr Hp).
+  - destruct (c01_may_skip name).
+    + exact (one_bar_section_sound p H tr Hp).
+    + exact (just_one_bar_section_sound p H tr Hp).
 Qed.
 
 (** the closure of ProgressBar::suspend: there is a path on which it runs (not vacuous), and the
     seeded variant "release the bar lock while the closure runs" violates both predicates *)
 Lemma suspend_closure_inside :
   exists p, pg_lookup "ProgressBar::suspend"%string all_programs = Some p /\
-    (forall tr, paths p tr -> (bar_sections tr <= 1)%nat /\ inside_bar tr = true) /\
+    (forall tr, paths p tr -> bar_sections tr = 1%nat /\ inside_bar tr = true) /\
     (exists tr, paths p tr /\ In CCallback tr).
 Proof.
   destruct (pg_lookup "ProgressBar::suspend"%string all_programs) as [p|] eqn:E; [|vm_compute in E; discriminate].
   exists p. split; [reflexivity|]. split.
-  - apply one_bar_section_sound.
+  - apply just_one_bar_section_sound.
     pose proof (proj1 (forallb_forall _ _) generated_c01_calls_ok "ProgressBar::suspend"%string) as H.
     unfold c01_call_okb in H. rewrite E in H. apply H. simpl. tauto.
   - vm_compute in E. injection E as <-.
